@@ -627,7 +627,7 @@ func (se *symExec) execAssign(x *ast.AssignStmt, st *sstate) []*sstate {
 						nv = val{kind: vInt, lin: l.v.lin.sub(r.v.lin)}
 					}
 				}
-				se.assignTo(x.Lhs[0], nv, r.st, x.Pos(), exprStr(x.Lhs[0])+" "+x.Tok.String()+" "+se.canon(x.Rhs[0]))
+				se.assignTo(x.Lhs[0], nv, r.st, x.Pos(), se.canon(x.Lhs[0])+" "+x.Tok.String()+" "+se.canon(x.Rhs[0]))
 				out = append(out, r.st)
 			}
 		}
@@ -994,6 +994,19 @@ func (se *symExec) enumConst(es ...ast.Expr) string {
 
 func (se *symExec) canon(e ast.Expr) string {
 	s := exprStr(e)
+	// a conversion to the type the operand already has (string(line) for a string) changes nothing and does not show
+	ast.Inspect(e, func(n ast.Node) bool {
+		call, ok := n.(*ast.CallExpr)
+		if !ok || len(call.Args) != 1 {
+			return true
+		}
+		if tv, ok := se.info.Types[call.Fun]; ok && tv.IsType() {
+			if at, ok := se.info.Types[call.Args[0]]; ok && at.Type != nil && types.Identical(at.Type, tv.Type) {
+				s = strings.Replace(s, exprStr(call), exprStr(call.Args[0]), 1)
+			}
+		}
+		return true
+	})
 	repl := map[string]string{}
 	ast.Inspect(e, func(n ast.Node) bool {
 		if id, ok := n.(*ast.Ident); ok {
